@@ -26,7 +26,7 @@ pub fn gen_merge_case(rng: &mut Rng, tier: Tier) -> MergeCase {
     }
     // shared key pool
     let pool_n = if many { rng.urange(1, 6) } else { rng.urange(1, if tier == Tier::Quick { 120 } else { 600 }) };
-    let class = [gen::KeyClass::Alpha, gen::KeyClass::Counter, gen::KeyClass::Random, gen::KeyClass::Long][rng.usize_below(4)];
+    let class = [gen::KeyClass::Alpha, gen::KeyClass::Counter, gen::KeyClass::Random, gen::KeyClass::Long, gen::KeyClass::Family][rng.usize_below(5)];
     let pool = gen::gen_keys(rng, pool_n, class, 1024);
     let mut sources = Vec::new();
     let mut next_id: u32 = 0;
